@@ -591,10 +591,6 @@ Record step := mkStep {
   sp_fhead : N;                    (* crash-free head after batch + further block *)
   sp_crash : list crashobs }.      (* empty = crash points not enumerated for this batch *)
 
-Record case := mkCase { c_tree : tree; c_steps : list step }.
-
-Definition genesis_of (t : tree) : block := hd (mkB 0 0 0 0 [] 0 0) t.
-
 Definition crash_ok (t : tree) (s0 : st) (batch : list block) (further : list block) (k : nat) (c : crashobs) : bool :=
   let (sk, _) := InsertChain t import_fuel (with_budget (Some k) s0) batch in
   Bool.eqb (crashmid sk) (cr_mid c) &&
@@ -616,24 +612,52 @@ Fixpoint crashes_ok (t : tree) (s0 : st) (batch further : list block) (k : nat) 
   | c :: r => crash_ok t s0 batch further k c && crashes_ok t s0 batch further (S k) r
   end.
 
-Fixpoint steps_ok (t : tree) (s : st) (l : list step) : bool :=
+(* returns the verdict and the state after the last step (None after a panic) *)
+Fixpoint steps_ok (t : tree) (s : st) (l : list step) : bool * option st :=
   match l with
-  | [] => true
+  | [] => (true, Some s)
   | p :: r =>
     let batch := blocks_of t (sp_batch p) in
     let further := blocks_of t [sp_further p] in
     let (s', e) := InsertChain t import_fuel (clear_log s) batch in
-    (err_code e =? sp_err p) && log_eqb (wlog s') (sp_log p) && obs_ok s' (sp_obs p)
-    && Bool.eqb (consistent_b t (disk_of s') (cur s')) (sp_cons p)
-    && (match further, e with
-        | [], _ | _, EPanic => true
-        | _, _ => let (s2, _) := InsertChain t import_fuel s' further in cur s2 =? sp_fhead p
-        end)
-    && crashes_ok t s batch further 1 (sp_crash p)
-    && match e with EPanic => true | _ => steps_ok t s' r end
+    let ok :=
+      (err_code e =? sp_err p) && log_eqb (wlog s') (sp_log p) && obs_ok s' (sp_obs p)
+      && Bool.eqb (consistent_b t (disk_of s') (cur s')) (sp_cons p)
+      && (match further, e with
+          | [], _ | _, EPanic => true
+          | _, _ => let (s2, _) := InsertChain t import_fuel s' further in cur s2 =? sp_fhead p
+          end)
+      && crashes_ok t s batch further 1 (sp_crash p) in
+    match e with
+    | EPanic => (ok, None)
+    | _ => let (ok', fin) := steps_ok t s' r in (ok && ok', fin)
+    end
   end.
 
-Definition case_ok (c : case) : bool := steps_ok (c_tree c) (init_st (genesis_of (c_tree c))) (c_steps c).
+(* a database that lost some state roots (not a crash point of this code: it
+   exercises loadLastState's repair): restart result as observed *)
+Record dmg := mkDmg { dm_roots : list N; dm_ok : bool; dm_head : N; dm_cons : bool }.
+
+Definition drop_states (roots : list N) (d : disk) : disk :=
+  mkD (d_body d) (d_hnum d) (d_hdr d) (filter (fun r => negb (memN r roots)) (d_state d)) (d_rcpt d)
+      (d_look d) (d_canon d) (d_headH d) (d_headB d).
+
+Definition dmg_ok (t : tree) (d : disk) (x : dmg) : bool :=
+  match recover t (drop_states (dm_roots x) d) with
+  | None => negb (dm_ok x)
+  | Some (d', h) => dm_ok x && (h =? dm_head x) && Bool.eqb (consistent_b t d' h) (dm_cons x)
+  end.
+
+Record case := mkCase { c_tree : tree; c_steps : list step; c_damage : list dmg }.
+
+Definition genesis_of (t : tree) : block := hd (mkB 0 0 0 0 [] 0 0) t.
+
+Definition case_ok (c : case) : bool :=
+  let (ok, fin) := steps_ok (c_tree c) (init_st (genesis_of (c_tree c))) (c_steps c) in
+  ok && match fin with
+        | None => true
+        | Some s => forallb (dmg_ok (c_tree c) (disk_of s)) (c_damage c)
+        end.
 
 Fixpoint mismatches_from (i : N) (l : list case) : list N :=
   match l with
